@@ -23,6 +23,7 @@ package consensus
 
 import (
 	"fmt"
+	"math"
 	"math/big"
 )
 
@@ -204,6 +205,34 @@ func refFromPower(a ival, k uint, prec uint) (t *big.Int, ok bool) {
 		return nil, false
 	}
 	return new(big.Int).Sub(pow2(k), cl), true
+}
+
+// sepBits estimates how many bits of relative accuracy on W = 2^k/A are needed
+// to separate it from the nearest integers: log2(W) - log2(distance). +Inf when
+// the enclosure straddles an integer. Used only to estimate the running time of
+// the library call (cost guard), never for correctness.
+func sepBits(a ival, k uint, prec uint) float64 {
+	c := ivCtx{prec}
+	u := exactFloat(pow2(k))
+	wlo := c.dn().Quo(u, a.hi)
+	whi := c.up().Quo(u, a.lo)
+	cl, ch := ceilPos(wlo), ceilPos(whi)
+	if cl.Cmp(ch) != 0 {
+		return math.Inf(1)
+	}
+	if cl.Cmp(pow2(k)) == 0 {
+		return 0 // threshold 0: the library's first level already truncates both ends to 0
+	}
+	up := new(big.Float).Sub(exactFloat(cl), whi)                             // c - whi >= 0
+	down := new(big.Float).Sub(wlo, exactFloat(new(big.Int).Sub(cl, bigOne))) // wlo - (c-1) > 0
+	d := up
+	if down.Cmp(up) < 0 {
+		d = down
+	}
+	if d.Sign() <= 0 {
+		return math.Inf(1)
+	}
+	return float64(whi.MantExp(nil) - d.MantExp(nil))
 }
 
 // log2Power returns an approximation of log2((1-f)^sigma) (<= 0) for class
